@@ -37,7 +37,17 @@ for v in variants:
                 hit = r.returncode == 0 and "VIOLATION" not in out
                 print(("quiet " if hit else "ALARM ") + f"{prop} {v['name']}")
             else:
-                hit = r.returncode == 1 and "VIOLATION property=" + prop in out and all(x in out for x in v.get("expect", []))
+                # expected rule names / texts must occur in the report of a failing obligation, not on an "ok" line
+                failing, keep = [], False
+                for l in out.splitlines():
+                    if l.startswith("  FAIL") or l.startswith("  UNDEC"):
+                        keep = True
+                    elif l.startswith("  ok") or l.startswith("  known"):
+                        keep = False
+                    if keep:
+                        failing.append(l)
+                ftxt = "\n".join(failing)
+                hit = r.returncode == 1 and "VIOLATION property=" + prop in out and all(x in ftxt for x in v.get("expect", []))
                 print(("ok    " if hit else "MISS  ") + f"{prop} {v['name']}")
             if not hit:
                 fails += 1
